@@ -53,6 +53,10 @@ pub struct CaseOk {
     pub nontrivial: bool,
     pub class: String,
     pub key: u64,
+    /// Signatures of known-finding observations made inside an otherwise passing case (e.g. reads of a
+    /// history that fall into a defective region). Each must be listed by an open finding, otherwise the
+    /// case is a failure with that signature. Counted per finding in the evidence.
+    pub known: Vec<String>,
 }
 
 /// A failing case: `signature` identifies the *kind* of failure (used for known-finding lookup and
@@ -66,7 +70,11 @@ pub struct Failure {
 pub type CaseResult = Result<CaseOk, Failure>;
 
 pub fn ok(nontrivial: bool, class: impl Into<String>, key: u64) -> CaseResult {
-    Ok(CaseOk { nontrivial, class: class.into(), key })
+    Ok(CaseOk { nontrivial, class: class.into(), key, known: Vec::new() })
+}
+
+pub fn ok_with_known(nontrivial: bool, class: impl Into<String>, key: u64, known: Vec<String>) -> CaseResult {
+    Ok(CaseOk { nontrivial, class: class.into(), key, known })
 }
 
 pub fn fail<T>(signature: impl Into<String>, what: impl Into<String>) -> Result<T, Failure> {
@@ -403,9 +411,36 @@ impl Run {
         res: CaseResult,
         counting: bool,
     ) -> Result<(), Failure> {
+        // known-finding observations inside a passing case: all must be listed, else the case fails
+        let res = match res {
+            Ok(okc) if !okc.known.is_empty() => {
+                let mut bad = None;
+                for sig in &okc.known {
+                    if self.strict || self.findings.lookup(sig).is_none() {
+                        bad = Some(sig.clone());
+                        break;
+                    }
+                }
+                match bad {
+                    Some(sig) => Err(Failure { signature: sig, what: "observation attributed to a defect class that is not listed as an open known finding".into() }),
+                    None => Ok(okc),
+                }
+            }
+            other => other,
+        };
         match res {
             Ok(okc) => {
                 if counting {
+                    if !okc.known.is_empty() {
+                        let mut st = self.state.lock().unwrap();
+                        for sig in &okc.known {
+                            if let Some(k) = self.findings.lookup(sig) {
+                                let ss = st.subs.entry(sub.to_string()).or_default();
+                                *ss.tolerated.entry(k.id.clone()).or_insert(0) += 1;
+                                st.known_seen.entry(k.id.clone()).or_insert_with(|| k.what.clone());
+                            }
+                        }
+                    }
                     let mut st = self.state.lock().unwrap();
                     let ss = st.subs.entry(sub.to_string()).or_default();
                     ss.evaluations += 1;
